@@ -20,7 +20,8 @@ def c01():
     jobs = [
         J("c01_base_foo_0", Q, 20, what="with_capacity(0) establishes Inv, rejects every handle", bounds=b),
         J("c01_base_foo_3", Q, 40, what="with_capacity(3) establishes Inv, rejects every handle", bounds=b),
-        J("c01_base_foo_1", T, 30, what="base case N=1", bounds=b),
+        J("c01_base_foo_1", Q, 30, what="base case N=1 (one-slot free list)", bounds=b),
+        J("c01_base_foo_2", Q, 30, what="base case N=2", bounds=b),
         J("c01_base_tri_2", T, 40, what="base case, 3-column archetype", bounds=b),
         J("c01_create_foo_3", Q, 200, what="create step + arbitrary handle through all lookup paths", bounds=b, assumes=a),
         J("c01_create_foo_1", T, 60, what="create step N=1", bounds=b, assumes=a),
@@ -300,7 +301,8 @@ def c12():
         j("c12_refill_foo_4", T, 300, "refill N=4"),
         j("c12_refill_tri_3", T, 200, "refill, 3 columns"),
         j("c12_with_capacity_fill_3", Q, 100, "with_capacity(n) permits n creations without reallocation (public API only)"),
-        j("c12_with_capacity_fill_1", T, 60, "same n=1"),
+        j("c12_with_capacity_fill_1", Q, 60, "same n=1 (one-slot free list)"),
+        j("c12_with_capacity_fill_2", T, 80, "same n=2"),
         j("c12_zero_capacity", Q, 40, "capacity 0: refuse within capacity, grow on create"),
         j("c12_limit_within_capacity", Q, 20, "create_within_capacity at the 2^24 limit refuses, nothing changes"),
         j("c12_limit_create_panics", Q, 20, "create at the 2^24 limit panics 'capacity overflow'", expect_fail=(("capacity overflow", "push"),)),
